@@ -322,10 +322,13 @@ func Analyse(in *Interner, data []byte, password string) *Analysis {
 		}
 	}
 
+	// keystore.FindChain does not return on a pool with cyclic issuers in a tree without the repair of
+	// C19-F6; for such pools the chain is built here (every certificate at most once, as the repaired code does)
 	a.Cyclic = cyclic(pool)
-	if a.Cyclic && os.Getenv("C19_FX6") != "1" {
-		// keystore.FindChain would not return (C19-F6); C19_FX6=1 says the tree under test has the repair
-		return a
+	findChain := keystore.FindChain
+
+	if a.Cyclic {
+		findChain = ownFindChain
 	}
 
 	seen := map[int]bool{}
@@ -337,7 +340,7 @@ func Analyse(in *Interner, data []byte, password string) *Analysis {
 
 		seen[b.Pub] = true
 
-		chain := keystore.FindChain(b.pubK, pool)
+		chain := findChain(b.pubK, pool)
 		if len(chain) == 0 {
 			continue
 		}
@@ -361,6 +364,56 @@ func Analyse(in *Interner, data []byte, password string) *Analysis {
 	}
 
 	return a
+}
+
+func certIssuerOf(child, cand *x509.Certificate) bool {
+	if len(child.AuthorityKeyId) != 0 && len(cand.SubjectKeyId) != 0 {
+		return bytes.Equal(child.AuthorityKeyId, cand.SubjectKeyId)
+	}
+
+	return bytes.Equal(child.RawIssuer, cand.RawSubject)
+}
+
+func ownFindChain(key crypto.PublicKey, pool []*x509.Certificate) []*x509.Certificate {
+	pk, ok := key.(interface{ Equal(x crypto.PublicKey) bool })
+	if !ok {
+		return nil
+	}
+
+	var chain []*x509.Certificate
+
+	for _, c := range pool {
+		if pk.Equal(c.PublicKey) {
+			chain = []*x509.Certificate{c}
+
+			break
+		}
+	}
+
+	if chain == nil {
+		return nil
+	}
+
+walk:
+	for {
+		child := chain[len(chain)-1]
+
+		for _, cand := range pool {
+			used := false
+
+			for _, u := range chain {
+				used = used || u.Equal(cand)
+			}
+
+			if !used && certIssuerOf(child, cand) {
+				chain = append(chain, cand)
+
+				continue walk
+			}
+		}
+
+		return chain
+	}
 }
 
 // cyclic tells whether following "first other certificate in the pool that is
